@@ -45,7 +45,7 @@ type Cfg struct {
 	// rule is replaced by the same rule with a long one (or cleared and loaded again). If the node is still ejected
 	// after the load, it is still ejected when the interval of the REPLACED rule has passed.
 	// [interval before s, interval after s, a request between the load and the old deadline (0/1), how: 0 LoadRules, 1 LoadRuleOfResource, 2 ClearRules+LoadRules,
-	// 3 ClearRules, then the very same rule object is loaded again and the node fails again shortly before the old timer is due, 4 the same with ClearRuleOfResource, then LoadRules, 5 the recycler consumes its queue only after ClearRules (timer armed while there is no rule), then LoadRules, 6 / 7 a rule with ACTIVE recovery is replaced by a passive one / cleared while its check function is probing an ejected node, 8 the retryer takes a node queued under the active rule from its queue after a passive one was loaded]
+	// 3 ClearRules, then the very same rule object is loaded again and the node fails again shortly before the old timer is due, 4 the same with ClearRuleOfResource, then LoadRules, 5 the recycler consumes its queue only after ClearRules (timer armed while there is no rule), then LoadRules, 6 / 7 a rule with ACTIVE recovery is replaced by a passive one / cleared while its check function is probing an ejected node, 8 the retryer takes a node queued under the active rule from its queue after a passive one was loaded, 9 as 6 but replaced by the same active rule with another check function]
 	Recycle []int64 `json:"recycle,omitempty"`
 }
 
@@ -99,7 +99,7 @@ func (P) Gen(rng *sim.Rng, tier string) *harness.Case {
 		cfg.Verdicts = []int64{int64(rng.Range(1, int(d)-1)), d + int64(rng.Range(0, 500)), int64(rng.Range(2, 10)), d, int64(rng.Intn(2))}
 	}
 	if len(cfg.Budget) == 0 && len(cfg.Verdicts) == 0 && rng.Chance(0.02) {
-		cfg.Recycle = []int64{int64(rng.Range(1, 5)), int64([]int{30, 600, 3600}[rng.Intn(3)]), int64(rng.Intn(2)), int64(rng.Intn(9))}
+		cfg.Recycle = []int64{int64(rng.Range(1, 5)), int64([]int{30, 600, 3600}[rng.Intn(3)]), int64(rng.Intn(2)), int64(rng.Intn(10))}
 	}
 	n := rng.Range(6, 24)
 	for i := 0; i < n; i++ {
@@ -1066,10 +1066,15 @@ func execVerdicts(cfg *Cfg, o *harness.Outcome, env *harness.Env) {
 	}
 }
 
+// c13Checker is a recovery checker that counts its calls and never finds a node healthy.
+type c13Checker struct{ n *int }
+
+func (c c13Checker) Check(string) bool { *c.n++; return false }
+
 // execRecycle: see Cfg.Recycle.
 func execRecycle(cfg *Cfg, o *harness.Outcome, env *harness.Env) {
 	a, b, between, how := cfg.Recycle[0], cfg.Recycle[1], cfg.Recycle[2] == 1, cfg.Recycle[3]
-	if a <= 0 || a > 10 || b <= a+1 || b > 100000 || how < 0 || how > 8 {
+	if a <= 0 || a > 10 || b <= a+1 || b > 100000 || how < 0 || how > 9 {
 		return
 	}
 	const resName, bad, good = "res-0", "10.0.0.1:80", "10.0.0.2:80"
@@ -1095,7 +1100,7 @@ func execRecycle(cfg *Cfg, o *harness.Outcome, env *harness.Env) {
 		calls := 0
 		active := mk(3600)
 		active.EnableActiveRecovery, active.RecoveryIntervalMs, active.MaxRecoveryAttempts = true, 1000, 3
-		active.RecoveryCheckFunc = func(string) bool { calls++; return false }
+		active.RecoveryCheckFunc = c13Checker{&calls}.Check
 		harness.Call(o, "C13.load-panicked", 0, outlier.VerifResetWorkers)
 		defer func() {
 			harness.Call(o, "C13.load-panicked", 0, drain)
@@ -1154,10 +1159,19 @@ func execRecycle(cfg *Cfg, o *harness.Outcome, env *harness.Env) {
 		if o.Failed() || calls == 0 {
 			return
 		}
+		calls2 := 0
 		harness.Call(o, "C13.load-panicked", 0, func() {
-			if how == 6 {
+			switch how {
+			case 6:
 				_, _ = outlier.LoadRules([]*outlier.Rule{mk(3600)})
-			} else {
+			case 9:
+				// the same rule again, with a check function of its own: the same method of another checker (two
+				// method values of one method share their code and nothing else)
+				again := mk(3600)
+				again.EnableActiveRecovery, again.RecoveryIntervalMs, again.MaxRecoveryAttempts = true, 1000, 3
+				again.RecoveryCheckFunc = c13Checker{&calls2}.Check
+				_, _ = outlier.LoadRules([]*outlier.Rule{again})
+			default:
 				_ = outlier.ClearRules()
 			}
 		})
@@ -1171,7 +1185,7 @@ func execRecycle(cfg *Cfg, o *harness.Outcome, env *harness.Env) {
 		o.Probe("outlier_rule_with_active_recovery_replaced_while_it_probes_a_node")
 		if calls != before {
 			o.Fail("C13.replaced-rule-still-decides", 0, "outlier rule with active recovery (RecoveryIntervalMs 1000, a check function that never finds the node healthy): a node was ejected and the rule's check function probed it %d times; the rule was %s; in the 10 s after that load had returned the check function of the rule that is gone was called %d more times",
-				before, map[bool]string{true: "replaced by a rule with passive recovery (LoadRules)", false: "cleared (ClearRules)"}[how == 6], calls-before)
+				before, map[int64]string{6: "replaced by a rule with passive recovery (LoadRules)", 7: "cleared (ClearRules)", 9: "replaced by the same rule with a check function of its own (the same method of another checker object)"}[how], calls-before)
 		}
 		return
 	}
